@@ -12,7 +12,7 @@ Next == \/ i = 0 /\ i' \in {-b : b \in 1..NB}
 Spec == Init /\ [][Next]_i
 SetOf(q) == {q[k] : k \in 1..Len(q)}
 \* JSON heaps use sequences indexed by object number: identical to functions over Obj
-HeapEq(a, b) == /\ \A x \in Obj : a.child[x] = b.child[x] /\ a.kids[x] = b.kids[x]
+HeapEq(a, b) == /\ \A x \in Obj : a.child[x] = b.child[x] /\ a.kids[x] = b.kids[x] /\ a.vals[x] = b.vals[x]
                 /\ \A x \in Obj : D!WellFormed(a.d[x]) /\ D!DictEq(a.d[x], b.d[x])
 \* registrations: c.regs = sequence of [h, e, n] (handler id, expression, count > 0)
 RegOf(c, hid) == CHOOSE r \in SetOf(c.regs) : r.h = hid
@@ -21,7 +21,14 @@ HasReg(c, hid) == \E r \in SetOf(c.regs) : r.h = hid
 EvOf(ob) == IF ob[1] = "trait" THEN <<"trait", ob[2], ob[3]>> ELSE <<ob[1], ob[2], "">>
 MutClauses(c) ==
   LET h == c.pre  m == c.m
-      bad == {r \in SetOf(c.regs) :
+      \* registrations on an observed property: one event when a relevant change alters the computed value;
+      \* a relevant change that leaves the value as it was may or may not be announced
+      pbad == {r \in SetOf(c.regs) : r.e \in Props /\
+                LET got == c.calls[r.h]  ev == <<"trait", Root, r.e>> IN
+                IF ~CalledViaProp(h, r.e, m) \/ ~MayNotify(h, m) THEN got # <<>>
+                ELSE IF PropValue(h, r.e) # PropValue(Mutate(h, m), r.e) THEN got # <<ev>>
+                ELSE ~(got = <<>> \/ got = <<ev>>)}
+      bad == {r \in SetOf(c.regs) : r.e \notin Props /\
                 LET got == c.calls[r.h]
                     exp == Called(h, r.e, m)
                 IN IF IsChange(h, m) THEN got # (IF exp THEN <<EvOf(Hit(m))>> ELSE <<>>)
@@ -30,11 +37,13 @@ MutClauses(c) ==
       unreg == {k \in 1..Len(c.calls) : ~HasReg(c, k) /\ c.calls[k] # <<>>}
   IN (IF HeapEq(Mutate(h, m), c.post) THEN {} ELSE {"C08-model-heap"})
      \cup (IF bad = {} THEN {} ELSE {"C08-calls-during-change"})
+     \cup (IF pbad = {} THEN {} ELSE {"C12-property-change-notification"})
      \cup (IF unreg = {} THEN {} ELSE {"C09-unregistered-handler-called"})
 ProbeClauses(c) ==     \* after the step every object's value is bumped: who is called?
   LET h == c.post
       bad == {r \in SetOf(c.regs2) : \E x \in Obj : x # NoVal /\
-                c.probe[r.h][x] # (IF <<"trait", x, "value">> \in Notifying(h, r.e) THEN 1 ELSE 0)}
+                c.probe[r.h][x] # (IF <<"trait", x, "value">> \in Notifying(h, r.e)
+                                      \/ (r.e \in Props /\ <<"trait", x, "value">> \in Notifying(h, DepOf(r.e))) THEN 1 ELSE 0)}
       unreg == {k \in 1..Len(c.probe) : (~\E r \in SetOf(c.regs2) : r.h = k) /\ \E x \in Obj : c.probe[k][x] # 0}
   IN (IF bad = {} THEN {} ELSE {"C08-reachability-probe"})
      \cup (IF unreg = {} THEN {} ELSE {"C09-unregistered-handler-called"})
@@ -52,8 +61,24 @@ RegClauses(c) ==       \* observe / unobserve steps; c.regs before, c.regs2 afte
 \* Out of the quantifier: a mutation after which an active registration's expression no longer applies
 \* (an object lacking a required trait has been linked into an observed path).  The framework raises
 \* from the mutation itself; the statement of C08 assumes expressions that remain applicable.
-Inapplicable(c) == \E r \in SetOf(c.regs) : Fails(c.post, r.e) \/ Fails(c.pre, r.e)
+\* The observed properties of the root are permanent registrations of their dependency expressions.
+Inapplicable(c) == \/ \E r \in SetOf(c.regs) : Fails(c.post, r.e) \/ Fails(c.pre, r.e)
+                   \/ \E p \in Props : Fails(c.post, DepOf(p)) \/ Fails(c.pre, DepOf(p))
+\* C12: a read of an observed property.  c.ret: the value read; c.runs: getter runs during the read; c.since: the
+\* mutations <<pre-heap, m>> performed since the previous read of the same property (c.first = 1: no previous read)
+ReadClauses(c) ==
+  LET p == c.m.e
+      changed == \E k \in 1..Len(c.since) : Relevant(c.since[k].pre, p, c.since[k].m) /\ MayNotify(c.since[k].pre, c.since[k].m)
+  IN (IF c.ret = PropValue(c.post, p) THEN {} ELSE {"C12-stale-read"})
+     \cup (IF c.runs > 1 THEN {"C12-getter-ran-more-than-once"} ELSE {})
+     \cup (IF p = "csnap" /\ c.first = 0 /\ ~changed /\ c.runs # 0 THEN {"C12-cached-getter-ran-without-relevant-change"} ELSE {})
 Clauses(c) ==
+  IF c.m.t = "read" THEN ReadClauses(c) ELSE
+  \* the pool is replaced by a pickle / deep copy of itself: same heap, dynamic registrations gone
+  IF c.m.t = "copy" THEN (IF HeapEq(c.pre, c.post) THEN {} ELSE {"C12-copy-changed-state"})
+                          \cup (IF c.exc = "" /\ c.rets[1] = PropValue(c.post, "csnap") /\ c.rets[2] = PropValue(c.post, "chv")
+                                THEN {} ELSE {"C12-stale-read-on-copy"})
+                          \cup ProbeClauses(c) ELSE
   \* end of a history: every reference to the pool is dropped and the garbage collector run
   IF c.m.t = "collect" THEN (IF c.alive = 0 THEN {} ELSE {"C09-registrations-keep-objects-alive"}) ELSE
   \* the owner of a bound-method handler was collected: from now on that handler is never called (c.regs2 omits it)
